@@ -1,6 +1,7 @@
 package main
 
 import (
+	"strings"
 	"bytes"
 	"math/big"
 
@@ -362,6 +363,11 @@ func codecValue(val string, d *driver, k int) *big.Int {
 		return new(big.Int).Sub(two256, one)
 	case "2^255":
 		return new(big.Int).Lsh(one, 255)
+	case "hi_r", "hi_8r", "hi_3r": // lo + k*r*2^256 with lo < r: the part beyond 32 bytes is a multiple of r (64-byte inputs)
+		kk := map[string]int64{"hi_r": 1, "hi_8r": 8, "hi_3r": 3}[val]
+		lo := newPrg("codec", d.seed, k).big(250)
+		hi := new(big.Int).Mul(r, big.NewInt(kk))
+		return lo.Add(lo, hi.Lsh(hi, 256))
 	case "2^63", "2^64-1", "2^64", "2^127", "2^128-1", "2^191", "2^192-1": // 64-bit limb boundaries and half-limb values
 		e := map[string]uint{"2^63": 63, "2^64-1": 64, "2^64": 64, "2^127": 127, "2^128-1": 128, "2^191": 191, "2^192-1": 192}[val]
 		v := new(big.Int).Lsh(one, e)
@@ -402,6 +408,22 @@ func codecValue(val string, d *driver, k int) *big.Int {
 	case "lo": // only the least significant byte set
 		return nil
 	default:
+		if strings.HasPrefix(val, "L:") && len(val) == 6 {
+			v := new(big.Int)
+			for i := 0; i < 4; i++ { // val[2] is the top limb
+				limb := new(big.Int).Rsh(r, uint(64*(3-i)))
+				limb.And(limb, new(big.Int).SetUint64(^uint64(0)))
+				switch val[2+i] {
+				case 'm':
+					limb.Sub(limb, one)
+				case 'p':
+					limb.Add(limb, one)
+				}
+				v.Lsh(v, 64)
+				v.Add(v, limb)
+			}
+			return v
+		}
 		return newPrg("codec", d.seed, k).big(520)
 	}
 }
